@@ -61,7 +61,15 @@ def gen_plan(rng, tier="quick"):
     while int(np.prod([n for _, n in dims] or [1])) > 24:
         dims[rng.randrange(len(dims))][1] = 1
     nf = rng.randint(3, 14)
+    big = tier == "thorough" and rng.random() < 0.3   # deeper bounds in the thorough tier
+    if big:
+        nf = rng.randint(10, 24)
+        dims = [[k, rng.choice([2, 3, 4, 5, 6])] for k, _ in dims]
+        while int(np.prod([n for _, n in dims] or [1])) > 48:
+            dims[rng.randrange(len(dims))][1] = 2
     nd = rng.choice([0, 2, 3, 4, 5, 6, 8, 8, 9, 12, 12, 16]) if pool in ("stats", "fit", "all") else rng.choice([3, 4, 5, 6, 8, 8, 9, 12, 12, 16])
+    if big and nd:
+        nd = rng.choice([12, 16, 18, 24, 36])
     recipe = {
         "dims": dims, "nf": nf, "nd": nd,
         "freq": {"kind": rng.choice(["log", "log", "lin", "irr"]), "f0": rng.choice([0.04, 0.05, 0.03]),
@@ -106,7 +114,7 @@ def gen_plan(rng, tier="quick"):
         chunks[k] = rng.choice([1, 1, 2]) if sizes[k] > 2 else 1
     # bound the graph: rolling-window operations on single-element blocks explode into 10^4 tasks
     heavy = op["m"] in ("smooth", "rotate", "interp") or op.get("kw", {}).get("smooth")
-    limit = 16 if heavy else 48
+    limit = (16 if heavy else 48) * (2 if big else 1)
 
     def nblocks(k):
         v = chunks[k]
